@@ -61,7 +61,7 @@ fn params_for(method: &str, seed: u64, password: &str) -> Value {
 	}
 }
 
-fn client_key(seed: u64) -> (SecretKey, PublicKey) {
+pub fn client_key(seed: u64) -> (SecretKey, PublicKey) {
 	let mut r = SimRng::new(seed ^ 0xec0d);
 	let secp = static_secp_instance();
 	let secp = secp.lock();
@@ -74,7 +74,7 @@ fn client_key(seed: u64) -> (SecretKey, PublicKey) {
 	}
 }
 
-fn shared_from(server_pub_hex: &str, sk: &SecretKey) -> Option<SecretKey> {
+pub fn shared_from(server_pub_hex: &str, sk: &SecretKey) -> Option<SecretKey> {
 	let secp = static_secp_instance();
 	let secp = secp.lock();
 	let bytes = from_hex(server_pub_hex).ok()?;
@@ -127,10 +127,14 @@ impl C13 {
 	}
 
 	fn envelope(id: u64, method: &str, params: &Value, key: &SecretKey) -> Option<String> {
-		let inner = json!({"jsonrpc": "2.0", "method": method, "params": params, "id": id});
-		let er = EncryptedRequest::from_json(&JsonId::IntId(id as u32), &inner, key).ok()?;
-		er.as_json_str().ok()
+		envelope(id, method, params, key)
 	}
+}
+
+pub fn envelope(id: u64, method: &str, params: &Value, key: &SecretKey) -> Option<String> {
+	let inner = json!({"jsonrpc": "2.0", "method": method, "params": params, "id": id});
+	let er = EncryptedRequest::from_json(&JsonId::IntId(id as u32), &inner, key).ok()?;
+	er.as_json_str().ok()
 }
 
 impl Prop for C13 {
